@@ -27,7 +27,7 @@ import (
 
 func init() { checks["c06"] = checkC06 }
 
-var c06Events = []string{"write", "bigwrite", "shrink", "restart", "kill", "pause", "stall-shrink"}
+var c06Events = []string{"write", "bigwrite", "shrink", "restart", "kill", "pause", "stall-shrink", "fshrink"}
 
 type c06Run struct {
 	x        *Exec
@@ -98,7 +98,7 @@ func followerCaughtUp(c *Cli) bool {
 var c06Frozen = freezeAllBut("follow", "Serve#2", "Serve#4")
 
 func checkC06(job *Job, res *Result) {
-	res.Rule = "FAULT: initial follower state {empty, a true prefix of the leader's log, unrelated data (objects + channel), a non-empty log with an empty dataset; thorough: the same with logs > 512 KiB so that the checksum search runs} x ALL event sequences of length <= D over {leader write, 300 kB leader write, leader AOFSHRINK to completion, follower clean restart, replication connection kill, follower paused during two leader writes, follower stalled mid-download across a leader write + AOFSHRINK + write}; settle under virtual time; distinct = distinct (initial state, event sequence, final leader dump)"
+	res.Rule = "FAULT: initial follower state {empty, a true prefix of the leader's log, unrelated data (objects + channel), a non-empty log with an empty dataset; thorough: the same with logs > 512 KiB so that the checksum search runs} x ALL event sequences of length <= D over {leader write, 300 kB leader write, leader AOFSHRINK to completion, follower clean restart, replication connection kill, follower paused during two leader writes, follower stalled mid-download across a leader write + AOFSHRINK + write, AOFSHRINK on the follower}; settle under virtual time; distinct = distinct (initial state, event sequence, final leader dump)"
 	res.Assumptions = append(res.Assumptions,
 		"both servers run in one process on the in-memory network; time is virtual (1 s reconnect delay and 250 ms broadcasts cost nothing)",
 		"no TTLs in this part's workload (deadlines are the business of part c06ttl)",
@@ -225,6 +225,9 @@ func checkC06(job *Job, res *Result) {
 						r.write(true)
 					case "shrink":
 						waitShrink(r.L, r.lc)
+					case "fshrink":
+						// the follower rewrites its own log
+						waitShrink(r.F, fc)
 					case "restart":
 						fc.Close()
 						r.F.StopProcess()
@@ -284,7 +287,11 @@ func checkC06(job *Job, res *Result) {
 				if h := fc.Do("HEALTHZ"); h.String() != "+OK" {
 					viol("healthz", "caught_up=true but HEALTHZ replied "+h.String())
 				}
-				if la, fa := asMap(r.lc.Do("SERVER"))["aof_size"], asMap(fc.Do("SERVER"))["aof_size"]; la != fa {
+				ownRewrite := false // once the follower rewrote its own log the two files are no longer byte copies
+				for _, n := range names {
+					ownRewrite = ownRewrite || n == "fshrink"
+				}
+				if la, fa := asMap(r.lc.Do("SERVER"))["aof_size"], asMap(fc.Do("SERVER"))["aof_size"]; la != fa && !ownRewrite {
 					viol("aof-size-differs", fmt.Sprintf("follower reports caught_up with aof_size %s, the leader's is %s", fa, la))
 				}
 				ld := fullDump(r.lc)
